@@ -112,3 +112,15 @@ package streamconfig
 //@   ensures[path-params-on-disk] result == nil && applyFlows.PathParams != nil ==> forall(n, string, in(n, applyFlows.parsedPathParams) ==> fsdom[paramsPath(n)] && exists(n2, string, in(n2, applyFlows.parsedPathParams) && paramsPath(n2) == paramsPath(n) && fsys[paramsPath(n)] == applyFlows.parsedPathParams[n2]))
 //@   ensures[gateway-config-on-disk] result == nil && applyFlows.GatewayConfig != "" ==> fsdom[gatewayPath()] && fsys[gatewayPath()] == applyFlows.parsedGatewayConfig
 //@   ensures[metrics-config-on-disk] result == nil && applyFlows.Metrics != "" ==> fsdom[metricsPath()] && fsys[metricsPath()] == applyFlows.parsedMetrics
+
+// ---------------------------------------------------------------- C04: how a flow names a processor
+// A connection names a processor by its key; a processor created by another flow is named "<flow>.<key>". The graph
+// builder keys its nodes by the FULL name as written (ReferenceName), so that a flow's own processor and a processor of the
+// same key borrowed from another flow are two nodes. strings.Split is trusted (some slice of parts).
+//@ extern strings.Split
+//@   modifies nothing
+//@ func (*ProcessorRef).parseRef
+//@   prop C04
+//@   requires pr != nil
+//@   modifies pr.ReferenceName, pr.Name, pr.CreatedByFlow
+//@   ensures[the-node-key-is-the-name-as-written] result == nil ==> pr.ReferenceName == old(pr.Name)
